@@ -276,8 +276,12 @@ def tie_world(r):
     book = []
     for x in recs:
         book.append(("heading", x))
-        for e in r.sample(els, r.randint(1, 3)): book.append(("entry", e, r.choice(["1", "2", "2", "2"])))
-        if r.random() < 0.3: book.append(("entry", r.choice(recs), "1"))     # may nest or cycle
+        # 0 elements too: an empty recipe (a bare heading) that other recipes may use; references with quantity 0; an ingredient listed twice
+        for e in r.sample(els, r.choice([0, 1, 1, 2, 3])): book.append(("entry", e, r.choice(["1", "2", "2", "2", "0"])))
+        for _ in range(r.choice([0, 0, 0, 1, 1, 2])): book.append(("entry", r.choice(recs), r.choice(["1", "1", "2", "0"])))     # may nest or cycle
+        if r.random() < 0.15 and len(book) > 1 and book[-1][0] == "entry": book.append(book[-1])
+    if r.random() < 0.15:      # a heading declared twice (the later record replaces the earlier one)
+        book += [("heading", r.choice(recs)), ("entry", r.choice(els), "2")]
     foods = recs + ["u%d" % i for i in range(r.randint(2, 5))] + ["a/b", "a/c", "b/a"]
     log = []
     for d in range(r.randint(1, 3)):
@@ -465,6 +469,25 @@ def check_C06(ctx):
                             c1 = period_case(r, fd, cmd, tz=tz, **{side: kwd}); c1["f_today"] = today.strftime("%Y/%m/%d")
                             c2 = period_case(r, fdel, cmd, tz=tz); c2["f_today"] = today.strftime("%Y/%m/%d")
                             cases += [c1, c2]; pairs.append((len(cases) - 2, len(cases) - 1, "keyword %s as %s, today=%s %s tz=%s (daylight-saving switch nearby)" % (kwd, side, today, cmd, tz[0])))
+        # days whose midnight does not exist in the process zone (daylight saving starts at 00:00 there): selection is by calendar day all the same
+        if ln < ctx.scale(3, 12):
+            gaps = gen.midnight_gap_days()
+            for gk in range(min(len(gaps), ctx.scale(4, 16))):
+                zone, off, gd = gaps[(ln * 11 + gk * 7) % len(gaps)]
+                gds = [gd + datetime.timedelta(days=o) for o in (-1, 0, 1, 0, 2)]
+                r.shuffle(gds)
+                gitems = window_log(r, [(d.year, d.month, d.day) for d in gds])
+                for it_i, it in enumerate(gitems):
+                    if it[0] == "heading" and (it_i + 1 == len(gitems) or gitems[it_i + 1][0] == "heading"): gitems.insert(it_i + 1, ("entry", "bread", "1"))
+                fg = {"food.yaml": book, "log.yaml": gen.render_items(r, gitems, crlf=False, final_newline=True)}
+                for (bb, ee) in [(gd, gd), (gd, None), (None, gd), (gd - datetime.timedelta(days=1), gd)]:
+                    keep = lambda i, bb=bb, ee=ee: (bb is None or gds[i] >= bb) and (ee is None or gds[i] <= ee)
+                    fdel = {"food.yaml": book, "log.yaml": gen.render_items(r, delete_days(gitems, keep), crlf=False, final_newline=True)}
+                    cmd = r.choice(PERIOD_CMDS)
+                    kw = dict(g_begin=bb.strftime("%Y/%m/%d") if bb else None, g_end=ee.strftime("%Y/%m/%d") if ee else None)
+                    cases.append(period_case(r, fg, cmd, tz=(zone, off), **kw)); cases.append(period_case(r, fdel, cmd, tz=(zone, off)))
+                    pairs.append((len(cases) - 2, len(cases) - 1, "period %s..%s %s tz=%s (no midnight on %s there)" % (bb, ee, cmd, zone, gd)))
+                    ctx.tally("tz", zone)
         for d in win:
             for tz in tzs:
                 for arg, off in [(d.strftime("%Y/%m/%d"), 0), ("today", 0), ("yesterday", -1)]:
@@ -662,6 +685,13 @@ def all_command_forms(r, f, x=b"kcal", day=b"2021/01/21"):
              dict(base, cmd="lint", arg=b"log.yaml"), dict(base, cmd="lint", arg=b"food.yaml", silent=True)]
     return forms
 
+def near_miss(r, name):
+    """a spelling close to `name` (bytes) but different from it where possible"""
+    t = name.decode("utf-8", "replace")
+    cands = [t.upper(), t.lower(), t.swapcase(), t.title(), t[:-1], t[1:], t + " ", " " + t, t[:1], t + t]
+    cands = [c for c in cands if c and c != t and not c.startswith("-")] or [t + "x"]
+    return r.choice(cands).encode("utf-8")
+
 def check_C08(ctx):
     r = ctx.rng
     cases = []
@@ -676,6 +706,14 @@ def check_C08(ctx):
         els = [e.encode() for e in gen.element_names(w)] or [b"x"]
         forms = all_command_forms(r, f, x=r.choice(els))
         pick = forms if ctx.tier == "thorough" else r.sample(forms, 6)
+        if k % 2 == 0:
+            # an argument that names an element / food of the files only approximately: other letter case, a prefix, a blank added
+            names = els + [n.encode() for n in w.get("foods", [])]
+            near = near_miss(r, r.choice(names))
+            ns = near.decode("utf-8", "replace")
+            pick = pick + r.sample([dict(forms[0], cmd="reg", single_element=ns), dict(forms[0], cmd="reg", single_element=ns, csv=True), dict(forms[0], cmd="reg", single_element=ns, group_food=True),
+                                    dict(forms[0], cmd="bal", single_element=ns), dict(forms[0], cmd="bal", single_element=ns, collapse=True), dict(forms[0], cmd="reg", single_food=ns),
+                                    dict(forms[0], cmd="element-total", arg=near), dict(forms[0], cmd="element-total", arg=near, desc=True)], 3)
         for c in r.sample(forms, 2):      # the same commands under a random combination of their boolean flags
             c2 = dict(c)
             flags = {"reg": ["no_totals", "totals_only", "shorten", "old", "csv", "group_food", "l_no_color"], "bal": ["collapse", "collapse_last"],
@@ -712,6 +750,22 @@ def check_C08(ctx):
     for c in odd:
         if c.get("f_fmt") == "02.01.2006": c["f_today"] = "01.02.2021"
         elif c.get("f_fmt") is not None: c.pop("f_today", None)
+    # outside the model (only "a report or an error message, never a crash or a hang" is checked): file names whose stat / open fails
+    # in unusual ways - a path through a regular file (ENOTDIR), an over-long name, a symbolic link loop, the empty name, a directory
+    weird = []
+    wf = dict(f1, **{"loop": {"symlink": "loop"}, "somedir/keep": b"", "c.cfg": {"cfg": {"depth": 7}}})
+    odd_paths = ["food.yaml/config", "n" * 300, "loop", "loop/x", "", "somedir", "/dev/null", "/dev/null/x", "missing/dir/file", "c.cfg/"]
+    wforms = all_command_forms(r, wf, x=b"kcal")
+    for pth in odd_paths:
+        for key in ("f_config", "e_config", "f_db", "e_db", "f_log", "e_log"):
+            for c in r.sample(wforms, ctx.scale(2, 8)):
+                weird.append(dict(c, **{key: pth}))
+        weird.append(dict(files=wf, cmd="lint", arg=pth.encode(), **NOCOLOR))
+    wres = impl_only(ctx, weird) + impl_only(ctx, [dict(c, sink=None) for c in weird[::3]], inproc=True)
+    for c, i in zip(weird + weird[::3], wres):
+        ctx.tally("robustness_only_status", i["status"].split(":")[0])
+        if i["status"].startswith("crash") or i["status"] == "timeout":
+            ctx.violation("C08:crash:" + c["cmd"], "%s with an unusual file name (%s): %s %s" % (c["cmd"], {k2: c[k2] for k2 in ("f_config", "e_config", "f_db", "e_db", "f_log", "e_log", "arg") if c.get(k2) is not None}, i["status"], (i.get("panic") or i.get("raw_err") or "")[:300]), dict(kind="cli", case=c, impl=i, robustness_only=True))
     # in-process (panics are recovered and reported with their stack) ...
     ires = cli_diff(ctx, [dict(c, sink=None) for c in cases], tag="C08:", inproc=True, keyf=lambda c: "C08:outcome:" + c["cmd"])
     # ... and the real binary (exit status / signal / timeout)
@@ -725,7 +779,8 @@ def check_C08(ctx):
             ctx.violation("C08:silent-failure:" + c["cmd"], "%s failed without an error message" % c["cmd"], dict(kind="cli", case=c, impl=i))
     return dict(rule="valid worlds with 1-4 mutations (deletions, arbitrary bytes, truncation, structure characters, invalid UTF-8, NUL, bad and special numbers, duplicated fragments), pure "
                 "random bytes, cyclic books; x command forms (24 forms, %s per world), odd invocations (missing arguments, bad regexp, odd layouts and period strings, --maxdepth 0 / "
-                "negative / 10^7 on a cyclic book); run in-process (a panic is recovered and reported) and on the real binary (exit status, signal, 20 s timeout); the outcome class and, "
+                "negative / 10^7 on a cyclic book), arguments that name an element or food only approximately (other letter case, prefix, blank), and - outside the model, crash / hang only - "
+                "file names whose stat or open fails unusually (path through a file, over-long name, symlink loop, empty name, directory); run in-process (a panic is recovered and reported) and on the real binary (exit status, signal, 20 s timeout); the outcome class and, "
                 "where the model is exact, the bytes are compared with the extracted Coq model. Non-trivial = every mutated world, distinct by file bytes" % ("all" if ctx.tier == "thorough" else "6 sampled"))
 
 # ---------------------------------------------------------------------------
@@ -895,6 +950,21 @@ def check_C14(ctx):
         cases.append(c); metas.append((layout, items))
         ctx.nontriv(logb + layout.encode()); ctx.tally("layout", layout)
         if k < 1: ctx.sample(dict(log=logb, date_format=layout))
+    # days whose midnight does not exist in the process time zone (daylight saving starts at 00:00): the printed day must still be the day read
+    gaps = gen.midnight_gap_days()
+    for k in range(min(len(gaps), ctx.scale(24, 200))):
+        zone, off, gd = gaps[(k * 7) % len(gaps)] if gaps else (None, 0, None)
+        layout = layouts[k % len(layouts)]
+        ds = [gd + datetime.timedelta(days=o) for o in r.sample([-1, 0, 0, 1, 2], 3)]
+        items = []
+        for d in ds:
+            items.append(("heading", gen._fmt(layout, d.year, d.month, d.day)))
+            for _ in range(r.randint(1, 3)): items.append(("entry", r.choice(["bread", "tea", "a/b"]), gen.number(r, True)))
+        logb = gen.render_items(r, items, crlf=False, final_newline=True)
+        c = dict(files={"log.yaml": logb}, cmd="print", f_fmt=layout, tz=(zone, off), **NOCOLOR)
+        if k % 3 == 0: c["g_begin"] = gen._fmt(layout, gd.year, gd.month, gd.day); c["g_end"] = c["g_begin"]
+        cases.append(c); metas.append((layout, items)); ctx.tally("midnight_gap_zone", zone)
+        ctx.nontriv(logb + zone.encode())
     ires = cli_diff(ctx, cases, tag="C14:")
     # second round: the tool reads its own output back under the same options
     second = []; idx = []
@@ -928,7 +998,7 @@ def check_C14(ctx):
                 elif qa != qb and not (isinstance(qa, Fraction) or isinstance(qb, Fraction)):
                     ctx.violation("C14:quantity-changed", "food %r: %s became %s" % (fn, qa, qb), rep); break
     return dict(rule="random logs (names with inner punctuation and non-ASCII text, every layout variant, notes of both documented forms, repeated foods, specials) x 4 date formats x "
-                "optional period: print on the real binary vs the extracted Coq model; then, on the implementation alone: print of the printed log is byte-identical, and csv log of the "
+                "optional period, plus logs around days whose midnight does not exist in the process time zone (10 zones): print on the real binary vs the extracted Coq model; then, on the implementation alone: print of the printed log is byte-identical, and csv log of the "
                 "printed log has the same (day, food) rows with quantities within the two-decimal rounding of the original's. Non-trivial = every log, distinct by (bytes, layout)")
 
 # ---------------------------------------------------------------------------
@@ -1218,6 +1288,9 @@ def check_C17(ctx):
         w = simple_world(r, envelope=True, pathy=0.5); worlds.append(files_of(r, w))
     # a report larger than bufio's 4096-byte buffer (flushes happen in the middle of the run)
     big = {"food.yaml": small["food.yaml"], "log.yaml": b"".join(b"2021/01/%02d:\n  bread: %d\n  tea: 1\n  item%d/x: 2\n" % (d % 28 + 1, d, d) for d in range(60))}
+    # single lines longer than bufio's buffer: such a write bypasses the buffer when it is empty (the first line of a report, typically)
+    longname = b"/".join(b"category%02d" % j for j in range(420)) + b"/a"          # > 4096 bytes, a legal name (lines may have 65535 bytes)
+    wide = {"food.yaml": longname + b":\n  kcal: 250\n  " + longname + b"x: 1\n", "log.yaml": b"2021/01/21:\n  " + longname + b": 2\n  tea: 1\n2021/01/22:\n  " + longname + b"x: 1\n"}
     cases = []; full_idx = {}
     bad = b"# notes\n2021/01/21:\n  bread: 2\n  oops\n  tea: x1\n\n2021/01/22:\n  nosep\n  ok: 1\n  worse: 1.2.3\n"
     def forms(f):
@@ -1226,13 +1299,14 @@ def check_C17(ctx):
         fs.append(dict(files=fb, cmd="lint", arg=b"bad.yaml", **NOCOLOR))
         fs.append(dict(files=fb, cmd="lint", arg=b"bad.yaml", silent=True, **NOCOLOR))
         return fs
-    for wi, f in enumerate(worlds + [big]):
+    for wi, f in enumerate(worlds + [big, wide]):
         fs = forms(f)
+        if f is wide: fs = fs + [dict(fs[0], cmd="reg", single_food="category"), dict(fs[0], cmd="element-total", arg=longname + b"x"), dict(fs[0], cmd="bal", single_element=(longname + b"x").decode())]
         full = run.run_inproc_cases(ctx.impl, [dict(c, sink=None) for c in fs])
         for c, i in zip(fs, full):
             n = len(i["stdout"])
-            if f is big:
-                ks = sorted({0, 1, 4095, 4096, 4097, n - 1, n, n + 1} | {r.randrange(n + 1) for _ in range(ctx.scale(6, 60))})
+            if f is big or f is wide:
+                ks = sorted({0, 1, 4095, 4096, 4097, n - 1, n, n + 1} | {r.randrange(n + 1) for _ in range(ctx.scale(6, 60))} | ({10, 4000, 4200, 5000, 8191, 8192, 8193} if f is wide else set()))
             else:
                 ks = range(0, n + 2) if n <= 700 else sorted({r.randrange(n + 2) for _ in range(ctx.scale(40, 300))} | {0, n - 1, n, n + 1})
             if wi > 0 and f is not big and ctx.tier == "quick": ks = sorted(set(list(ks)[::7]) | {n - 1, n})
@@ -1274,7 +1348,7 @@ def check_C17(ctx):
     finally:
         build.shutil.rmtree(d0, ignore_errors=True)
     return dict(rule="every command form (23) on small worlds with the report written to a sink that accepts k bytes and then fails, for EVERY k in 0..len+1 (first world; a stride of 7 plus "
-                "the boundary on the others in the quick tier), a 60-day log whose reports exceed bufio's 4096-byte buffer (k around 4096 and the end, plus random k); in-process with the "
+                "the boundary on the others in the quick tier), a 60-day log whose reports exceed bufio's 4096-byte buffer and a world whose names make single lines longer than that buffer (k around 4096, 8192 and the end, plus random k); in-process with the "
                 "production command wiring; bytes accepted and status compared with the extracted Coq model; on the implementation alone: k < length of the complete report => non-zero "
                 "status, k >= length => identical to the unlimited run, accepted bytes are a prefix of the complete report; plus /dev/full and a closed pipe on the real binary. "
                 "Non-trivial = every world, distinct by file bytes (each stands for all its (command, k) pairs)", extra=dict(exhaustive_offsets=True))
